@@ -536,6 +536,8 @@ def mutants():
     B = "treewalkers/base.py"
     E = "treewalkers/etree.py"
     return [
+        T("start-node-test-after-sibling", "treewalkers/base.py", "                    if self.tree is currentNode:\n                        currentNode = None\n                        break\n                    nextSibling = self.getNextSibling(currentNode)\n                    if nextSibling is not None:\n                        currentNode = nextSibling\n                        break\n                    else:",
+          "                    nextSibling = self.getNextSibling(currentNode)\n                    if nextSibling is not None:\n                        currentNode = nextSibling\n                        break\n                    elif self.tree is currentNode:\n                        currentNode = None\n                    else:", "R11.11"),
         T("dom-attr-localname", "treewalkers/dom.py", "                if attr.namespaceURI:\n                    attrs[(attr.namespaceURI, attr.localName)] = attr.value\n                else:\n                    attrs[(None, attr.name)] = attr.value", "                attrs[(attr.namespaceURI or None, attr.localName)] = attr.value", "R11.3"),
         T("void-adds-keygen-unhandled", "constants.py", "    \"wbr\",\n])", "    \"wbr\",\n    \"spacer\",\n])", "R11.7"),
         T("clark-greedy-walker", "treewalkers/etree.py", 'tag_regexp = re.compile("{([^}]*)}(.*)")', 'tag_regexp = re.compile("{(.*)}(.*)")', "R11.6"),
